@@ -36,7 +36,7 @@ func vhCfg(fam int) shape.Cfg {
 		return shape.Cfg{MinBlocks: 1, MaxBlocks: 1, MinSeqs: 1, MaxSeqs: 1, MinActions: 1, MaxActions: 1,
 			PlanGroups: shape.GroupsFamily, BlockGroups: shape.GroupsFamily, CheckActions: 1}
 	case famConc:
-		return shape.Cfg{MinBlocks: 1, MaxBlocks: 1, MinSeqs: 2, MaxSeqs: api.Bound("conc_seqs", 3, 4), MinActions: 1, MaxActions: 1}
+		return shape.Cfg{MinBlocks: 1, MaxBlocks: 1, MinSeqs: 2, MaxSeqs: api.Bound("conc_seqs", 3, 3), MinActions: 1, MaxActions: 1}
 	case famPlanGroupsSmall:
 		return shape.Cfg{MinBlocks: 1, MaxBlocks: 1, MinSeqs: 1, MaxSeqs: 1, MinActions: 1, MaxActions: 1,
 			PlanGroups: api.Bound("plan_groups_family", shape.GroupsFamily, shape.GroupsAll), CheckActions: 1}
